@@ -4,6 +4,19 @@ import json, sys, os
 V = '/verif'
 CLAIMED = {
 
+ 'C03': ("crash-point enumeration (cut after / instead of every frame of either direction, reset, local Close, Server.Close) x stateless DFS over schedules (deviation-bounded), all server modes",
+         "With a gated call, a plain Go call, a ping and a stream with a blocked reader outstanding, the link is cut after or instead of the k-th frame of either direction for every k of the conversation, reset, closed locally or by Server.Close while the traffic is racing; ServeCodec, listener and poll emulation: at quiescence no caller is blocked, every failed call carries ErrShutdown (or the error of its own failed write), successful ones carry their own reply, a blocked stream reader gets ErrStreamShutdown and a call started afterwards returns ErrShutdown without blocking.",
+         "message-level cuts (byte-level cuts through the real framing are covered by the byte-pipe scenario when listed in the evidence); 'bounded time' = needs no further event; bounds d<=1 quick / d<=2 thorough", "5 C03"),
+ 'C04': ("complete enumeration of request scripts x server modes x drop points + stateless DFS over schedules (deviation-bounded), scripted raw client counting frames on the wire",
+         "A scripted raw client sends every handler shape, pings, stream open/data/close and an unknown method in 5 scripts, stays or disappears after each frame, against ServeCodec/listener/poll(1,2 workers) x {plain, pipelining, direct I/O} x {default, code} headers: each delivered request is executed exactly once with the arguments sent, nothing runs for requests never sent, pings run no handler, exactly one response frame per request (never two); a call whose response is lost with the connection fails and is not re-executed (directly and through Transport).",
+         "a stream close is written after the handler has drained earlier data frames (closing discards unread messages); bounds d<=2 quick / d<=3 thorough", "5 C04"),
+ 'C11': ("complete enumeration of follow-up operation sequences (L<=3) x modes x buffer capacities + stateless DFS (deviation-bounded) with use-after-free poisoning of pooled buffers",
+         "Handlers keep their argument slices, callers keep replies (plain, and in a caller-supplied context buffer of capacity 0/len-1/len/len+1/4*len), both ends keep stream messages; then every sequence of 2-3 further operations over {small call, large call, stream message, ping}; server plain/pipelining/direct I/O/context buffer/NoCopy, client direct I/O, small and large pool buffers: every retained slice keeps the digest it had when handed over and no byte of a supplied buffer beyond the reported length changes. Poisoning on Pool.Put makes a released-but-retained buffer visible in every schedule.",
+         "BYTES codec only (pb byte fields / code alias the same way); NoCopy+aliasing codec on streams is outside the supported envelope and skipped; bounds d<=1 quick / d<=2 thorough", "5 C11"),
+ 'C19': ("complete enumeration of cancel/response orders x buffer capacities x error kinds + stateless DFS over schedules (deviation-bounded)",
+         "CallWithContext with a gated handler and a harness-owned context (cancel or deadline) next to a plain call and a gated Go call: cancel first / cancel racing with the response / response first, 1-2 abandoned calls, context buffers of capacity 0/len-1/len/len+1/4*len with a sentinel: the call returns the context's error while the handler is still gated, or the reply when it arrived first; siblings and three later calls (the next users of the recycled Call objects) get their own replies; the buffer is used when large enough and never written beyond the reply length.",
+         "bounds d<=2 quick / d<=3 thorough", "5 C19"),
+
  'C09': ("stateless DFS over thread schedules of real Conn + Server with streams (deviation-bounded), all server modes incl. poll emulation",
          "1-2 streams on one connection, the handler pushing 0/1/2 messages immediately after open and then echoing, the client writing 1-2 messages before or after reading the pushes, a unary call and a ping alongside, in ServeCodec, listener, poll(1 worker) and poll(2 workers) modes: in every explored interleaving each side reads exactly the sequence the other side wrote (no loss, duplicate, reorder, foreign or phantom message), nobody stays blocked and the unary reply is its own.",
          "message sizes up to ~20 bytes; bounds d<=2 quick / d<=3 thorough; netpoll replaced by the poll emulation", "5 C09"),
